@@ -6,6 +6,8 @@ ROOT = os.path.dirname(os.path.dirname(os.path.abspath(__file__)))
 def main():
     props = {}
     for p in sorted(glob.glob(os.path.join(ROOT, "props", "C*.json"))):
+        if p.endswith(".findings.json"):
+            continue
         try:
             d = json.load(open(p))
             props[d["id"]] = d
